@@ -313,6 +313,7 @@ type roundOpts struct {
 	noDrops         bool   // no scripted connection drops at all (also not for re-PREPAREs)
 	postCompression string // ... or prepares them again after the workload's setup client did
 	preCompression  string // a client with this compression prepares the statements before the workload's own clients do
+	churn           int    // short-lived clients that hang up with requests in flight
 	idleClose       bool   // short heartbeat interval / idle timeout: connections of a silent node are closed by the proxy
 }
 
@@ -482,6 +483,40 @@ func runRound(scs []*reqScenario, nodes, numConns, nclients, workers int, out st
 			}
 		}()
 	}
+	// client churn: short-lived clients send a pipeline of requests and hang up without reading the answers, while
+	// other clients connect; answers to a client that is gone must never surface on another connection
+	stopChurn := make(chan struct{})
+	var churnWg sync.WaitGroup
+	for k := 0; k < ro.churn; k++ {
+		churnWg.Add(1)
+		go func(k int) {
+			defer churnWg.Done()
+			for it := 0; ; it++ {
+				select {
+				case <-stopChurn:
+					return
+				default:
+				}
+				cc, err := e.StartedClient(primitive.ProtocolVersion4, ro.compression)
+				if err != nil {
+					time.Sleep(5 * time.Millisecond)
+					continue
+				}
+				for q := 0; q < 12; q++ {
+					tok := rr.newToken()
+					frm := frame.NewFrame(primitive.ProtocolVersion4, int16(1+q), &message.Query{Query: fmt.Sprintf(idemStmts[0], tok),
+						Options: &message.QueryOptions{Consistency: primitive.ConsistencyLevelOne}})
+					if cc.Send(frm, tok, "idem|QUERY|churn") != nil {
+						break
+					}
+				}
+				if it%2 == 0 {
+					time.Sleep(time.Duration(rr.intn(3)) * time.Millisecond)
+				}
+				cc.Close()
+			}
+		}(k)
+	}
 	for w := 0; w < nclients*workers; w++ {
 		wg.Add(1)
 		go func(sl slot) {
@@ -509,6 +544,8 @@ func runRound(scs []*reqScenario, nodes, numConns, nclients, workers int, out st
 	}
 	close(work)
 	wg.Wait()
+	close(stopChurn)
+	churnWg.Wait()
 	close(stopDrops)
 	// quiescence: nothing logged for the window
 	quiet := t.Quiesce(700*time.Millisecond, 8*time.Second)
@@ -577,9 +614,15 @@ func init() {
 		noDrops := fs.Bool("nodrops", false, "random scenarios never drop connections")
 		preCompression := fs.String("precompression", "", "a client with this compression prepares the statements first")
 		postCompression := fs.String("postcompression", "", "a client with this compression prepares the statements again after the set-up")
+		churn := fs.Int("churn", 0, "short-lived clients that send a pipeline of requests and hang up without reading the answers")
 		idleClose := fs.Bool("idleclose", false, "random scenarios include nodes falling silent until the proxy closes their connections (idle timeout 400 ms)")
 		override := fs.Bool("override", false, "configure an unsupported-write-consistency override matching the workload's writes")
 		_ = fs.Parse(args)
+		if *churn > 0 {
+			// buffers handed from a closing connection to a new one travel through per-processor caches: few processors
+			// make such hand-overs (and what can go wrong with them) frequent
+			runtime.GOMAXPROCS(2)
+		}
 		os.Remove(*out)
 		var scs []*reqScenario
 		if *random > 0 {
@@ -633,7 +676,7 @@ func init() {
 				j = len(scs)
 			}
 			if err := runRound(scs[i:j], *nodes, *numConns, *nclients, *workers, *out, st, *dropRate, int64(k), *maxDelay,
-				roundOpts{compression: *compression, restarts: *restarts, addNode: *addNode, stallMs: *stallMs, holdMs: *holdMs, override: *override, noDrops: *noDrops, idleClose: *idleClose, preCompression: *preCompression, postCompression: *postCompression}); err != nil {
+				roundOpts{compression: *compression, restarts: *restarts, addNode: *addNode, stallMs: *stallMs, holdMs: *holdMs, override: *override, noDrops: *noDrops, idleClose: *idleClose, preCompression: *preCompression, postCompression: *postCompression, churn: *churn}); err != nil {
 				return err
 			}
 		}
